@@ -29,14 +29,21 @@ def run(ctx):
         'it the cells tile the geometry for every ring count and every duct: '
         'duct wall cells = their annulus, bypass cells = their annulus, '
         'coolant cells + pins + wires = the hexagon inside the inner duct']
+    ctx.decided += [
+        'R5 centroids of the concentric duct / bypass rings: each ring is '
+        'placed from the ring before it with the pair (previous thickness, '
+        'own thickness); the pairs chain through the sequence of '
+        'flat-to-flat boundaries for every duct index (symbolic index)']
     ctx.not_decided += ['symmetry and neighbour counts of the run-time '
-                        'adjacency', 'centroids']
+                        'adjacency', 'centroid coordinates as numbers']
     r1(ctx)
     r2(ctx)
     counts = r3(ctx)
     from . import _hexgeom
     _hexgeom.check(ctx, 'C08.R4', counts)
     ctx.min_instances('C08.R4', 9)
+    _hexgeom.check_ring_chain(ctx, 'C08.R5')
+    ctx.min_instances('C08.R5', 6)
     ctx.min_instances('C08.R1', 8)
     ctx.min_instances('C08.R2', 2)
     ctx.min_instances('C08.R3', 7)
